@@ -262,7 +262,7 @@ class C13(Check):
             st.sampled_from(['sync', 'async']), st.sampled_from(['base', 'jsonschema', 'pydantic']), st.sampled_from(['func', 'func-positional', 'view', 'view-noctx', 'view-wrapped']),
             st.sampled_from([1, 10, 10, 30]), st.lists(st.sampled_from(sorted(RETENTION_REQUESTS)), min_size=1, max_size=4),
         )
-        vcall = st.tuples(st.sampled_from(['users.get', 'posts.get', 'users.get_many', 'ip.strict', 'ip.lax', 'ip.lax', 'pick.int', 'pick.bool', 'pick.float']),
+        vcall = st.tuples(st.sampled_from(['users.get', 'posts.get', 'users.get_many', 'ip.strict', 'ip.lax', 'ip.lax', 'pick.int', 'pick.bool', 'pick.float', 'inject.base', 'inject.pyd']),
                           st.sampled_from([[1], ['1'], ['x'], [[1, 2]], [None], [], [], [1.5], [{'a': 1}], ['1.2.3.4'], ['not-an-ip']]))
         vhistory = st.builds(lambda d, h, p, c: {'kind': 'vhistory', 'dispatcher': d, 'history': [list(x) for x in h], 'probe': list(p), 'coerce': c},
                              st.sampled_from(['sync', 'async']), st.lists(vcall, max_size=6), vcall, st.booleans())
@@ -293,6 +293,12 @@ class C13(Check):
                         for k, ha in enumerate(hargs):
                             for j, pa in enumerate(args):
                                 out.append({'kind': 'vhistory', 'dispatcher': 'sync' if (k + j) % 2 else 'async', 'history': [[a, ha]], 'probe': [b, pa], 'coerce': (j + k) % 3 != 0})
+        # a method's first request against its later ones (the probe on a fresh dispatcher IS a first request)
+        for a in ('inject.base', 'inject.pyd'):
+            for b in ('inject.base', 'inject.pyd'):
+                for k, ha in enumerate([[], [1], ['x', 2]]):
+                    for j, pa in enumerate([[], [1], ['x'], [1, 2], {'value': 3}, {'dep_db': 'client'}, {'value': 1, 'flag': True}]):
+                        out.append({'kind': 'vhistory', 'dispatcher': 'sync' if (k + j) % 2 else 'async', 'history': [[a, ha]], 'probe': [b, pa], 'coerce': (j + k) % 3 != 0})
         return out
 
     def _growth_matrix(self, n):
@@ -423,6 +429,17 @@ class C13(Check):
             return jv.validate(ns['label'], schema=schema, **vargs)
         d.add(make_js('strict', format_checker=jsonschema.FormatChecker()), 'ip.strict')
         d.add(make_js('lax'), 'ip.lax')
+        # methods with several parameters the client never supplies: the context (excluded by name) next to dependencies with defaults
+        # excluded by the validator's predicate - what a method's FIRST request is validated against is what every later one is
+        from pjrpc.server import validators as vb
+        pred = lambda name, ann, default: name.startswith('dep_')  # noqa: E731
+
+        def make_inject(validator, tag):
+            ns = {}
+            exec(("async " if is_async else "") + f"def inject(ctx, dep_db='DB', value=0, dep_log='LOG', *, flag=False):\n    return ['{tag}', dep_db, value, dep_log, flag]\n", ns)
+            return validator.validate(ns['inject'])
+        d.add(make_inject(vb.BaseValidator(exclude_param=pred), 'base'), 'inject.base', context='ctx')
+        d.add(make_inject(vp.PydanticValidator(coerce=spec['coerce'], exclude_param=pred), 'pyd'), 'inject.pyd', context='ctx')
         return d
 
     def _run_vhistory(self, spec) -> Outcome:
